@@ -245,8 +245,10 @@ func (g *Governance) OnEndBlock(resp abcitypes.ResponseEndBlock) []GovViolation 
 			prev = pos - 1
 		}
 		n := uint64(0)
+		counted := map[common.Address]bool{} // a keyper is one address, however often the list names it
 		for _, k := range g.Configs[prev].Keypers {
-			if g.hasSeen[k] && g.blockSeen[k] >= g.Configs[pos].Activation {
+			if !counted[k] && g.hasSeen[k] && g.blockSeen[k] >= g.Configs[pos].Activation {
+				counted[k] = true
 				n++
 			}
 		}
